@@ -30,6 +30,9 @@ FUNCS = [
     ("is_list_item", "gapic/utils/lines.py", "is_list_item", []),
     ("get_subsequent_line_indentation_level", "gapic/utils/lines.py", "get_subsequent_line_indentation_level", []),
     ("address_resolve", "gapic/schema/metadata.py", "Address.resolve", [("package", "ListStr")]),
+    ("fix_whitespace", "gapic/generator/formatter.py", "fix_whitespace", []),
+    ("make_private", "gapic/utils/code.py", "make_private", []),
+    ("coerce_response_name", "gapic/samplegen_utils/utils.py", "coerce_response_name", []),
 ]
 
 TABLES = {"RESERVED_NAMES": "reservedNames"}       # module-level tables available as Pinned.<name> : List String
